@@ -456,6 +456,7 @@ pub struct ReplayStats {
     pub alt_executed: u64,
     pub pairs: u64,
     pub missing: u64,
+    pub panics: u64,
     pub tags: HashMap<String, u64>,
     pub tagged_distinct: u64,
     pub first_drift: Vec<Value>,
@@ -494,7 +495,7 @@ pub struct ReplayOpts {
 
 pub fn graph_replay<S: Sut>(gen_path: &str, out: &mut Out, hist: &mut Out, mout: Option<&mut Out>, opts: &ReplayOpts) -> ReplayStats {
     let mut st = ReplayStats {
-        transitions: 0, executed: 0, drift: 0, states: 0, alt_states: 0, alt_executed: 0, pairs: 0, missing: 0,
+        transitions: 0, executed: 0, drift: 0, states: 0, alt_states: 0, alt_executed: 0, pairs: 0, missing: 0, panics: 0,
         tags: HashMap::new(), tagged_distinct: 0, first_drift: vec![],
     };
     let mut nodes: HashMap<String, Node<S>> = HashMap::new();
@@ -588,6 +589,9 @@ pub fn graph_replay<S: Sut>(gen_path: &str, out: &mut Out, hist: &mut Out, mout:
                     full.insert("hid".into(), json!(hid));
                     full.insert("op".into(), op.clone());
                     let panicked = rec["res"] == "panic";
+                    if panicked {
+                        st.panics += 1;
+                    }
                     let altw = S::is_alt_worthy(&rec);
                     let altkind = rec["res"].as_str().unwrap_or("").to_string();
                     // M-level comparison (diagnostic)
@@ -798,6 +802,6 @@ pub fn run_scenario<S: Sut>(sc: &Value, out: &mut Out, mut mout: Option<&mut Out
 
 pub fn stats_json(st: &ReplayStats) -> Value {
     json!({"transitions": st.transitions, "executed": st.executed, "drift": st.drift, "states": st.states,
-           "alt_states": st.alt_states, "alt_executed": st.alt_executed, "pairs": st.pairs, "missing": st.missing,
+           "alt_states": st.alt_states, "alt_executed": st.alt_executed, "pairs": st.pairs, "missing": st.missing, "panics": st.panics,
            "tags": st.tags, "tagged_distinct": st.tagged_distinct, "first_drift": st.first_drift})
 }
